@@ -224,6 +224,28 @@ def prior_table(ix, R):
                 'model parameters are compiled first, then the observation\'s, with the same prior table',
                 okb, key='%s / %s' % (unparse(first.node), unparse(second.node)),
                 detail='%s / %s' % (unparse(first.node), unparse(second.node)), loc=f.loc(first.node))
+        # every default created by either pass ends up in the table the views read
+        # (fit_names / fit_latex index self._fit_priors by the fitted names)
+        why = []
+        for k, ce in enumerate(cps):
+            ret = fl.tab.atom('call', tuple(ce.args), extra=('fn:compile_params',))
+            tbl = fl.tab.atom('idx', (ret, fl.tab.const(2)))
+            merged = False
+            for e in calls(fl, 'update'):
+                if unparse(e.node.func) == 'self.%s.update' % attr and e.args and fl.tab.equal(e.args[0], tbl) \
+                        and fl.events.index(e) > fl.events.index(ce) and not e.guards:
+                    merged = True
+            for e in fl.of('store'):
+                if fmt(fl, e.target) == 'self.' + attr and fl.tab.equal(e.value, tbl) and \
+                        fl.events.index(e) > fl.events.index(ce) and not e.guards:
+                    merged = True
+            if not merged:
+                why.append('the prior table returned by the %s pass is not merged into self.%s' % (
+                    ('model', 'observation')[k], attr))
+        R.check('2.merge', 'EFF', site,
+                'the priors returned by both compile passes are merged into the table that fit_names / fit_latex index '
+                '(the helper replaces an empty table by a new dictionary, so in-place filling cannot be relied on)',
+                not why, key='; '.join(why), detail='; '.join(why), loc=f.loc())
         # results: extend in the same order
         sts = {fmt(fl, e.target): e for e in fl.of('store') if not e.loops}
         ext = [e for e in calls(fl, 'extend')]
@@ -572,6 +594,7 @@ def run(ix, R):
 
 
 MUTANTS = [
+    ('seed-c07-a', OP, "        self._fit_priors.update(_obs_priors)\n", "", '2.merge'),
     ('regress-f7', OP, "    def disable_derived(self, parameter):\n        obj = self._model if parameter in self._model.derivedParameters else self._observed", "    def disable_derived(self, parameter):\n        obj = self._model if parameter in self._model.fittingParameters else self._observed", '1.table'),
     ('enable-wrong-table', OP, "    def enable_derived(self, parameter):\n        obj = self._model if parameter in self._model.derivedParameters else self._observed", "    def enable_derived(self, parameter):\n        obj = self._model if parameter in self._model.fittingParameters else self._observed", '1.table'),
     ('boundary-drops-mode', OP, "        bounds = new_boundaries\n        obj.fittingParameters[parameter] = (name, latex, fget, fset, mode, to_fit, bounds)\n\n    def set_factor_boundary", "        bounds = new_boundaries\n        obj.fittingParameters[parameter] = (name, latex, fget, fset, 'linear', to_fit, bounds)\n\n    def set_factor_boundary", '5.slot'),
